@@ -462,6 +462,156 @@ Proof.
       exists t'. rewrite E, !endlen_dec. reflexivity.
 Qed.
 
+(* ------------------------------------------------------------------ *)
+(* uv_utf16_to_wtf8 into a buffer of any size: either everything fits, *)
+(* or the loop stops at target_end with target_len = the bytes of the   *)
+(* complete characters stored and the rest of the source still to do.   *)
+(* ------------------------------------------------------------------ *)
+Lemma firstn_S_cons {A} n (x : A) l : firstn (S n) (x :: l) = x :: firstn n l.
+Proof. reflexivity. Qed.
+
+Lemma to_wtf8_loop_gen tend : forall fuel w len target out,
+  lenok len w -> Forall unit16 w -> (length w < fuel)%nat -> target <= tend ->
+  (target + N.of_nat (length (wtf8_of w)) <= tend ->
+     exists len_e tl,
+       to_wtf8_loop fuel tend (mkWst w len target target out)
+       = mkWst [] len_e (target + N.of_nat (length (wtf8_of w))) tl (rev (wtf8_of w) ++ out) /\
+       (len_e = 0%Z \/ ((len_e < 0)%Z /\ target + N.of_nat (length (wtf8_of w)) = tend))) /\
+  (tend < target + N.of_nat (length (wtf8_of w)) ->
+     exists w_r len_r tl_r,
+       to_wtf8_loop fuel tend (mkWst w len target target out)
+       = mkWst w_r len_r tend tl_r
+           (rev (firstn (N.to_nat (tend - target)) (wtf8_of w)) ++ out) /\
+       lenok len_r w_r /\ Forall unit16 w_r /\ w_r <> [] /\
+       tl_r + N.of_nat (length (wtf8_of w_r)) = target + N.of_nat (length (wtf8_of w))).
+Proof.
+  induction fuel as [|f IH]; intros w len target out HL HF Hf Ht; [lia|].
+  destruct w as [|u r] eqn:Ew.
+  - unfold wtf8_of. cbn [cps_of flat_map length rev app]. rewrite N.add_0_r.
+    split; [intros _|intros; lia].
+    cbn [to_wtf8_loop]. destruct (N.eqb_spec target tend) as [E|E]; cbn [orb].
+    + exists len, target. split; [reflexivity|].
+      destruct HL as [->|[H _]]; [left; reflexivity|right; split; assumption].
+    + destruct (Z.eqb_spec len 0) as [Z|NZ].
+      * exists len, target. split; [reflexivity|left; exact Z].
+      * destruct HL as [->|[H _]]; [cbn in NZ; lia|].
+        unfold get_surrogate_value. cbn [hd].
+        replace (len <? 0)%Z with true by (symmetry; apply Z.ltb_lt; lia). cbn.
+        exists 0%Z, target. split; [reflexivity|left; reflexivity].
+  - rewrite <- Ew in *.
+    destruct (first_char w len HL HF ltac:(subst; discriminate))
+      as (cp & w' & Hc & Hg & Hcp & Hflag & Hl0 & Hcase & HF').
+    rewrite (wtf8_of_cons cp w w' Hc). rewrite app_length.
+    pose proof (enc_cp_length cp) as Hel.
+    assert (Hwne : w <> []) by (subst; discriminate).
+    cbn [to_wtf8_loop].
+    destruct (N.eqb_spec target tend) as [Eq|Ne]; cbn [orb].
+    { (* no room at all *)
+      split; [intros; lia|]. intros _. exists w, len, target.
+      replace (N.to_nat (tend - target)) with O by lia. cbn [firstn rev app].
+      rewrite Eq. split; [reflexivity|]. repeat split; try assumption.
+      rewrite (wtf8_of_cons cp w w' Hc), app_length. lia. }
+    rewrite Hl0, Hg, Hflag.
+    (* a character that is cut: the state keeps w, len and target_len *)
+    assert (Hcut : forall k pre,
+              (k < length (enc_cp cp))%nat -> pre = rev (firstn k (enc_cp cp)) ->
+              tend = target + N.of_nat k ->
+              (target + N.of_nat (length (enc_cp cp) + length (wtf8_of w')) <= tend -> False) /\
+              exists w_r len_r tl_r,
+                mkWst w len tend target (pre ++ out)
+                = mkWst w_r len_r tend tl_r
+                    (rev (firstn (N.to_nat (tend - target)) (enc_cp cp ++ wtf8_of w')) ++ out) /\
+                lenok len_r w_r /\ Forall unit16 w_r /\ w_r <> [] /\
+                tl_r + N.of_nat (length (wtf8_of w_r))
+                = target + N.of_nat (length (enc_cp cp) + length (wtf8_of w'))).
+    { intros k pre Hk -> Htend. split; [lia|]. exists w, len, target.
+      replace (N.to_nat (tend - target)) with k by lia.
+      rewrite firstn_app. replace (k - length (enc_cp cp))%nat with O by lia.
+      cbn [firstn]. rewrite app_nil_r. split; [reflexivity|]. repeat split; try assumption.
+      rewrite (wtf8_of_cons cp w w' Hc), app_length. reflexivity. }
+    unfold enc_cp in *.
+    destruct Hcase as [(Hlt & Htl & HL' & Hlen)|(Hge & Htl & HL' & Hlen)]; rewrite ?Htl.
+    + destruct (N.ltb_spec cp 128).
+      { cbn [length app] in *.
+        destruct (IH w' (dec_len len) (target + 1) (cp :: out) HL' HF' ltac:(lia) ltac:(lia)) as [IA IB].
+        split; intros Hc2.
+        - destruct (IA ltac:(lia)) as (le & tl & E & D). exists le, tl. rewrite E.
+          cbn [rev]. rewrite <- app_assoc. split; [f_equal; lia|].
+          destruct D as [D|[D1 D2]]; [left; exact D|right; split; [exact D1|lia]].
+        - destruct (IB ltac:(lia)) as (wr & lr & tr & E & B1 & B2 & B3 & B4).
+          exists wr, lr, tr. rewrite E.
+          replace (N.to_nat (tend - target)) with (S (N.to_nat (tend - (target + 1)))) by lia.
+          rewrite firstn_S_cons. cbn [rev]. rewrite <- app_assoc.
+          split; [reflexivity|]. repeat split; try assumption. lia. }
+      destruct (N.ltb_spec cp 2048).
+      { destruct (enc_bits2 cp) as (E1 & E2); [lia|]. rewrite E1, E2. cbn [length app] in *.
+        destruct (N.eqb_spec (target + 1) tend) as [C1|C1].
+        { destruct (Hcut 1%nat [192 + cp / 64] ltac:(cbn; lia) eq_refl ltac:(lia)) as [X Y].
+          split; [intros; exfalso; apply X; cbn [length]; lia|]. intros _. rewrite C1. exact Y. }
+        destruct (IH w' (dec_len len) (target + 1 + 1) ((128 + cp mod 64) :: (192 + cp / 64) :: out)
+                    HL' HF' ltac:(lia) ltac:(lia)) as [IA IB].
+        split; intros Hc2.
+        - destruct (IA ltac:(lia)) as (le & tl & E & D). exists le, tl. rewrite E.
+          cbn [rev]. rewrite <- !app_assoc. split; [f_equal; lia|].
+          destruct D as [D|[D1 D2]]; [left; exact D|right; split; [exact D1|lia]].
+        - destruct (IB ltac:(lia)) as (wr & lr & tr & E & B1 & B2 & B3 & B4).
+          exists wr, lr, tr. rewrite E.
+          replace (N.to_nat (tend - target)) with (S (S (N.to_nat (tend - (target + 1 + 1))))) by lia.
+          rewrite !firstn_S_cons. cbn [rev]. rewrite <- !app_assoc.
+          split; [reflexivity|]. repeat split; try assumption. lia. }
+      destruct (N.ltb_spec cp 65536); [|lia].
+      { destruct (enc_bits3 cp) as (E1 & E2 & E3); [lia|]. rewrite E1, E2, E3. cbn [length app] in *.
+        destruct (N.eqb_spec (target + 1) tend) as [C1|C1].
+        { destruct (Hcut 1%nat [224 + cp / 4096] ltac:(cbn; lia) eq_refl ltac:(lia)) as [X Y].
+          split; [intros; exfalso; apply X; cbn [length]; lia|]. intros _. rewrite C1. exact Y. }
+        destruct (N.eqb_spec (target + 1 + 1) tend) as [C2|C2].
+        { destruct (Hcut 2%nat [128 + (cp / 64) mod 64; 224 + cp / 4096] ltac:(cbn; lia) eq_refl ltac:(lia))
+            as [X Y].
+          split; [intros; exfalso; apply X; cbn [length]; lia|]. intros _. rewrite C2. exact Y. }
+        destruct (IH w' (dec_len len) (target + 1 + 1 + 1)
+                    ((128 + cp mod 64) :: (128 + (cp / 64) mod 64) :: (224 + cp / 4096) :: out)
+                    HL' HF' ltac:(lia) ltac:(lia)) as [IA IB].
+        split; intros Hc2.
+        - destruct (IA ltac:(lia)) as (le & tl & E & D). exists le, tl. rewrite E.
+          cbn [rev]. rewrite <- !app_assoc. split; [f_equal; lia|].
+          destruct D as [D|[D1 D2]]; [left; exact D|right; split; [exact D1|lia]].
+        - destruct (IB ltac:(lia)) as (wr & lr & tr & E & B1 & B2 & B3 & B4).
+          exists wr, lr, tr. rewrite E.
+          replace (N.to_nat (tend - target))
+            with (S (S (S (N.to_nat (tend - (target + 1 + 1 + 1)))))) by lia.
+          rewrite !firstn_S_cons. cbn [rev]. rewrite <- !app_assoc.
+          split; [reflexivity|]. repeat split; try assumption. lia. }
+    + destruct (N.ltb_spec cp 128); [lia|].
+      destruct (N.ltb_spec cp 2048); [lia|].
+      destruct (N.ltb_spec cp 65536); [lia|].
+      destruct (enc_bits4 cp) as (E1 & E2 & E3 & E4); [lia|]. rewrite E1, E2, E3, E4.
+      cbn [length app] in *.
+      destruct (N.eqb_spec (target + 1) tend) as [C1|C1].
+      { destruct (Hcut 1%nat [240 + cp / 262144] ltac:(cbn; lia) eq_refl ltac:(lia)) as [X Y].
+        split; [intros; exfalso; apply X; cbn [length]; lia|]. intros _. rewrite C1. exact Y. }
+      destruct (N.eqb_spec (target + 1 + 1) tend) as [C2|C2].
+      { destruct (Hcut 2%nat [128 + (cp / 4096) mod 64; 240 + cp / 262144] ltac:(cbn; lia) eq_refl ltac:(lia))
+          as [X Y].
+        split; [intros; exfalso; apply X; cbn [length]; lia|]. intros _. rewrite C2. exact Y. }
+      destruct (N.eqb_spec (target + 1 + 1 + 1) tend) as [C3|C3].
+      { destruct (Hcut 3%nat [128 + (cp / 64) mod 64; 128 + (cp / 4096) mod 64; 240 + cp / 262144]
+                    ltac:(cbn; lia) eq_refl ltac:(lia)) as [X Y].
+        split; [intros; exfalso; apply X; cbn [length]; lia|]. intros _. rewrite C3. exact Y. }
+      destruct (IH w' (dec_len (dec_len len)) (target + 1 + 1 + 1 + 1)
+                  ((128 + cp mod 64) :: (128 + (cp / 64) mod 64) :: (128 + (cp / 4096) mod 64)
+                     :: (240 + cp / 262144) :: out) HL' HF' ltac:(lia) ltac:(lia)) as [IA IB].
+      split; intros Hc2.
+      * destruct (IA ltac:(lia)) as (le & tl & E & D). exists le, tl. rewrite E.
+        cbn [rev]. rewrite <- !app_assoc. split; [f_equal; lia|].
+        destruct D as [D|[D1 D2]]; [left; exact D|right; split; [exact D1|lia]].
+      * destruct (IB ltac:(lia)) as (wr & lr & tr & E & B1 & B2 & B3 & B4).
+        exists wr, lr, tr. rewrite E.
+        replace (N.to_nat (tend - target))
+          with (S (S (S (S (N.to_nat (tend - (target + 1 + 1 + 1 + 1))))))) by lia.
+        rewrite !firstn_S_cons. cbn [rev]. rewrite <- !app_assoc.
+        split; [reflexivity|]. repeat split; try assumption. lia.
+Qed.
+
 (* the allocating route: rc 0, the WTF-8 form followed by NUL, exact length *)
 Theorem utf16_to_wtf8_alloc w len :
   lenok len w -> Forall unit16 w ->
@@ -470,7 +620,7 @@ Theorem utf16_to_wtf8_alloc w len :
 Proof.
   intros HL HF. unfold utf16_to_wtf8. rewrite (utf16_length_exact w len HL HF).
   set (L := N.of_nat (length (wtf8_of w))).
-  destruct (to_wtf8_loop_full L (S (length w)) w len 0 L [] HL HF ltac:(lia) ltac:(lia)) as [t' E].
+  destruct (to_wtf8_loop_full L (S (length w)) w len 0 0 [] HL HF ltac:(lia) ltac:(lia)) as [t' E].
   rewrite E. rewrite N.eqb_refl. cbn [negb hd andb].
   replace ((endlen len <? 0)%Z && true && (0 =? 0)) with (endlen len <? 0)%Z
     by (destruct (endlen len <? 0)%Z; reflexivity).
@@ -581,27 +731,94 @@ Proof.
   rewrite E1. cbn [fst rev app]. lia.
 Qed.
 
-(* The bounded-buffer route does not always report the exact length: when the
-   buffer ends inside the first character, target_len still holds the
-   capacity and the capacity is added to the length of the whole string. *)
-Theorem utf16_to_wtf8_enobufs_length_refuted :
-  exists w cap,
-    Forall nz16 w /\
-    utf16_length_as_wtf8 w (Z.of_nat (length w)) = 2 /\
-    utf16_to_wtf8 w (Z.of_nat (length w)) (TBuf cap) = (UV_ENOBUFS, [195; 0], 3).
+(* the caller's buffer of [cap] bytes (+1 for the NUL): everything when it
+   fits, otherwise UV_ENOBUFS, the first [cap] bytes, NUL, and the exact
+   length needed *)
+Lemma lenok_nonempty len w : lenok len w -> w <> [] ->
+  (len =? 0)%Z = false /\ ((len <? 0)%Z && (hd 0 w =? 0)) = false.
 Proof.
-  exists [233], 1. split; [repeat constructor|]. split; vm_compute; reflexivity.
+  intros HL Hne. destruct w as [|u r]; [congruence|]. destruct HL as [->|[H1 H2]].
+  - cbn [length]. split; [apply Z.eqb_neq; lia|].
+    replace (Z.of_nat (S (length r)) <? 0)%Z with false by (symmetry; apply Z.ltb_ge; lia). reflexivity.
+  - split; [apply Z.eqb_neq; lia|]. inversion H2 as [|? ? [H0 _] _]; subst. cbn [hd].
+    replace (u =? 0) with false by (symmetry; apply N.eqb_neq; lia). apply andb_false_r.
 Qed.
 
-(* assert(code_point < 0x10FFFF) in uv_wtf8_to_utf16 fails on the valid
-   code point U+10FFFF that uv_utf16_to_wtf8 produces from DBFF DFFF *)
-Theorem wtf8_to_utf16_assert_refuted :
-  exists w, Forall nz16 w /\
-    fst (fst (utf16_to_wtf8 w (Z.of_nat (length w)) (TAlloc true))) = 0%Z /\
-    snd (wtf8_to_utf16 (wtf8_of w)) = false.
+Theorem utf16_to_wtf8_buf w len cap :
+  lenok len w -> Forall unit16 w ->
+  utf16_to_wtf8 w len (TBuf cap) =
+    if N.of_nat (length (wtf8_of w)) <=? cap
+    then (0%Z, wtf8_of w ++ [0], N.of_nat (length (wtf8_of w)))
+    else (UV_ENOBUFS, firstn (N.to_nat cap) (wtf8_of w) ++ [0], N.of_nat (length (wtf8_of w))).
 Proof.
-  exists [56319; 57343]. split; [repeat constructor|]. split; vm_compute; reflexivity.
+  intros HL HF. unfold utf16_to_wtf8. set (L := N.of_nat (length (wtf8_of w))).
+  destruct (to_wtf8_loop_gen cap (S (length w)) w len 0 [] HL HF ltac:(lia) ltac:(lia)) as [GA GB].
+  rewrite !N.add_0_l in GA, GB. fold L in GA, GB.
+  destruct (N.leb_spec L cap) as [Fit|NoFit].
+  - destruct (GA Fit) as (le & tl & E & D). rewrite E. rewrite app_nil_r.
+    assert (Z0 : (if (le <? 0)%Z && (L =? cap) && (hd 0 [] =? 0) then 0%Z else le) = 0%Z).
+    { destruct D as [->|[D1 D2]]; [destruct (_ && _); reflexivity|].
+      replace (le <? 0)%Z with true by (symmetry; apply Z.ltb_lt; lia).
+      replace (L =? cap) with true by (symmetry; apply N.eqb_eq; lia). reflexivity. }
+    rewrite Z0. cbn [Z.eqb negb rev]. rewrite rev_involutive.
+    destruct (N.eqb_spec L cap); cbn [negb]; [subst cap|]; reflexivity.
+  - destruct (GB NoFit) as (wr & lr & tr & E & B1 & B2 & B3 & B4). rewrite E.
+    rewrite N.sub_0_r, app_nil_r, N.eqb_refl.
+    destruct (lenok_nonempty lr wr B1 B3) as [N1 N2].
+    replace ((lr <? 0)%Z && true && (hd 0 wr =? 0)) with ((lr <? 0)%Z && (hd 0 wr =? 0))
+      by (destruct (lr <? 0)%Z; reflexivity).
+    rewrite N2, N1. cbn [negb rev]. rewrite rev_involutive.
+    rewrite (utf16_length_exact wr lr B1 B2). f_equal. lia.
 Qed.
+
+(* the asserts of uv_wtf8_to_utf16 hold on every string that
+   uv_wtf8_length_as_utf16 accepts (in particular on U+10FFFF) *)
+Lemma some_inj (a b : N) : Some a = Some b -> a = b.
+Proof. intros H. injection H as H. exact H. Qed.
+
+Lemma wtf8_decode1_bound s cp s' : wtf8_decode1 s = (Some cp, s') -> cp <= 1114111.
+Proof.
+  unfold wtf8_decode1.
+  repeat match goal with
+  | |- context [if ?c then _ else _] => destruct c eqn:?
+  end; intros H; apply (f_equal fst) in H; cbn [fst] in H; try discriminate H;
+  apply some_inj in H; rewrite <- H; clear H;
+  repeat match goal with
+  | H : (_ <=? _) = true |- _ => apply N.leb_le in H
+  | H : (_ <=? _) = false |- _ => clear H
+  | H : (_ <? _) = _ |- _ => clear H
+  | H : negb _ = _ |- _ => clear H
+  end;
+  rewrite ?land2047, ?land65535; lia.
+Qed.
+
+Lemma wtf8_asserts_loop : forall fuel s acc out ok n,
+  wtf8_length_loop fuel s acc = Some n ->
+  snd (wtf8_to_utf16_loop fuel s out ok) = ok.
+Proof.
+  induction fuel as [|f IH]; intros s acc out ok n H; [reflexivity|].
+  cbn [wtf8_length_loop wtf8_to_utf16_loop] in *.
+  destruct (wtf8_decode1 s) as [[cp|] s'] eqn:E; [|discriminate].
+  pose proof (wtf8_decode1_bound s cp s' E) as Hb.
+  assert (A : (cp <=? 65535) || (cp <=? 1114111) = true).
+  { replace (cp <=? 1114111) with true by (symmetry; apply N.leb_le; exact Hb). apply orb_true_r. }
+  rewrite A, andb_true_r.
+  destruct (hd 0 s' =? 0); [reflexivity|].
+  destruct (65535 <? cp); eapply IH; exact H.
+Qed.
+
+Theorem wtf8_asserts_hold s n :
+  wtf8_length_as_utf16 s = Some n -> snd (wtf8_to_utf16 s) = true.
+Proof. intros H. unfold wtf8_to_utf16. eapply wtf8_asserts_loop. exact H. Qed.
+
+(* History, before commits 0064931 and 8661803: U+00E9 into a buffer of one byte
+   was reported as UV_ENOBUFS with length 3, and assert(code_point < 0x10FFFF)
+   failed on F4 8F BF BF.  The same inputs on the current model: *)
+Example enobufs_length_regression :
+  utf16_to_wtf8 [233] 1%Z (TBuf 1) = (UV_ENOBUFS, [195; 0], 2) /\
+  utf16_to_wtf8 [55296] 1%Z (TBuf 2) = (UV_ENOBUFS, [237; 160; 0], 3) /\
+  snd (wtf8_to_utf16 [244; 143; 191; 191]) = true.
+Proof. repeat split; vm_compute; reflexivity. Qed.
 
 Example roundtrip_example :
   let w := [65; 55357; 56489; 55296; 56320; 56320; 55296; 8364] in
